@@ -14,7 +14,7 @@ KINDS = c09.KINDS
 class C12(Prop):
     id = 'C12'
     struct_inputs = False          # get_value() of the input variables is part of the property
-    rule_added = 'Cases as generated for C09, including the sibling-unit named assertions and bound constants. A None returned by get_value for a name after the specification was evaluated is a violation.'
+    rule_added = '30% of the online cases after an earlier recording on the same object and reset(). Cases as generated for C09 (incl. named assertions that nothing refers to), including the sibling-unit named assertions and bound constants. A None returned by get_value for a name after the specification was evaluated is a violation.'
     rule = ('modular specifications with 1..4 named sub-specifications + the named top assertion (generated as for '
             'C09) on the 5 monitor configurations; after evaluate() / after every update(), get_value(v) of every input '
             'variable must return the data supplied and get_value(n) of every name must equal what a fresh stand-alone '
@@ -33,7 +33,10 @@ class C12(Prop):
         return False
 
     def gen(self, rng, ctx):
-        return c09.PROP.gen(rng, ctx)
+        case = c09.PROP.gen(rng, ctx)
+        if case['kind'] in ('dt_on', 'dt_on_pastified', 'ct_on') and rng.random() < 0.3:
+            case['prelude'] = rng.randint(1, 6)       # an earlier recording on the same object, then reset()
+        return case
 
     def bound_formula(self, case, name):
         defs = [(nm, lang.from_jsonable(g)) for nm, g in case['defs']]
@@ -102,6 +105,17 @@ class C12(Prop):
                 return None
 
         try:
+            if case.get('prelude') and kind in ('dt_on', 'dt_on_pastified'):
+                # an earlier recording (other values) and reset(): every name - also one that the last assertion does
+                # not refer to - must then report what a fresh stand-alone monitor reports
+                for i in range(case['prelude']):
+                    m.update(i, [(k, case['data'][k][(i * 7 + 3) % n] + 1.5) for k in names])
+                m.reset()
+                v.info['class:after-reset'] = 1
+            elif case.get('prelude') and kind == 'ct_on':
+                m.update(*[[k, [[float(t), val + 1.5] for t, val in sig[k][:max(1, len(sig[k]) // 2)]]] for k in names])
+                m.reset()
+                v.info['class:after-reset'] = 1
             if kind == 'dt_off':
                 ds = drive.dt_dataset(case['data'])
                 m.evaluate(ds)
